@@ -50,16 +50,18 @@ Fixpoint key_ltb (a b : list N) : bool :=
   | x :: a', y :: b' => (x <? y) || ((x =? y) && key_ltb a' b')
   end.
 
-(* overwrite l[off .. off+|src|) with src (no change of length; src truncated at the end of l) *)
+(* overwrite the front of l with src (no change of length; src truncated at the end of l) *)
+Fixpoint overwrite (src l : list N) {struct src} : list N :=
+  match src, l with
+  | [], _ => l
+  | _, [] => []
+  | s :: src', _ :: l' => s :: overwrite src' l'
+  end.
+
+(* overwrite l[off .. off+|src|) with src *)
 Fixpoint splice (l : list N) (off : nat) (src : list N) : list N :=
   match off, l with
-  | O, _ =>
-      (fix go (l src : list N) : list N :=
-         match src, l with
-         | [], _ => l
-         | _, [] => []
-         | s :: src', _ :: l' => s :: go l' src'
-         end) l src
+  | O, _ => overwrite src l
   | S off', x :: l' => x :: splice l' off' src
   | S _, [] => []
   end.
